@@ -23,6 +23,9 @@ pub mod c03;
 pub mod c04;
 #[cfg(feature = "likelysubtags")]
 pub mod c06;
+#[cfg(feature = "likelysubtags")]
+pub mod c08;
+pub mod c09;
 pub mod c10;
 pub mod c11;
 pub mod c12;
@@ -30,6 +33,8 @@ pub mod c13;
 pub mod c14;
 pub mod c15;
 pub mod c17;
+#[cfg(feature = "serde")]
+pub mod c19;
 #[cfg(feature = "likelysubtags")]
 pub mod c18;
 
@@ -50,6 +55,9 @@ pub fn all() -> Vec<(&'static str, fn())> {
         v.extend_from_slice(c06::LIST);
         v.extend_from_slice(c06::c07::LIST);
     }
+    #[cfg(feature = "likelysubtags")]
+    v.extend_from_slice(c08::LIST);
+    v.extend_from_slice(c09::LIST);
     v.extend_from_slice(c10::LIST);
     v.extend_from_slice(c11::LIST);
     v.extend_from_slice(c12::LIST);
@@ -58,6 +66,8 @@ pub fn all() -> Vec<(&'static str, fn())> {
     v.extend_from_slice(c15::LIST);
     v.extend_from_slice(c17::LIST);
     v.extend_from_slice(c17::more::LIST);
+    #[cfg(feature = "serde")]
+    v.extend_from_slice(c19::LIST);
     #[cfg(feature = "likelysubtags")]
     v.extend_from_slice(c18::LIST);
     v
